@@ -41,18 +41,32 @@ UUID_RX = (r"[A-Fa-f0-9]{8}-[A-Fa-f0-9]{4}-[A-Fa-f0-9]{4}-[A-Fa-f0-9]{4}-[A-Fa-f
 
 NUM, STR, PATH = 0, 1, 2
 
-# name -> (value regex, to_python, priority class, fixed digit count or 0)
+# name -> (value regex, to_python, priority class, value validation or None).  The validation is the part of
+# a converter's meaning that is not in its character pattern: digit count, numeric range.
+def _digits(n):
+    return lambda raw, val: len(raw) == n
+
+
+def _range(lo, hi):
+    return lambda raw, val: lo <= val <= hi
+
+
 CONVS = {
-    "string": (r"[^/]+", str, STR, 0),
-    "string(length=2)": (r"[^/]{2}", str, STR, 0),
-    "string(minlength=2)": (r"[^/]{2,}", str, STR, 0),
-    "int": (r"[0-9]+", int, NUM, 0),
-    "int(fixed_digits=2)": (r"[0-9]+", int, NUM, 2),
-    "int(fixed_digits=3)": (r"[0-9]+", int, NUM, 3),
-    "float": (r"[0-9]+\.[0-9]+", float, NUM, 0),
-    "any(a,b)": (r"(?:a|b)", str, STR, 0),
-    "uuid": (UUID_RX, uuid.UUID, STR, 0),
-    "path": (r"[^/].*", str, PATH, 0),
+    "string": (r"[^/]+", str, STR, None),
+    "string(length=2)": (r"[^/]{2}", str, STR, None),
+    "string(minlength=2)": (r"[^/]{2,}", str, STR, None),
+    "string(maxlength=2)": (r"[^/]{1,2}", str, STR, None),
+    "int": (r"[0-9]+", int, NUM, None),
+    "int(fixed_digits=2)": (r"[0-9]+", int, NUM, _digits(2)),
+    "int(fixed_digits=3)": (r"[0-9]+", int, NUM, _digits(3)),
+    "int(signed=True)": (r"-?[0-9]+", int, NUM, None),
+    "int(min=2,max=9)": (r"[0-9]+", int, NUM, _range(2, 9)),
+    "float": (r"[0-9]+\.[0-9]+", float, NUM, None),
+    "float(min=1.0,max=9.5)": (r"[0-9]+\.[0-9]+", float, NUM, _range(1.0, 9.5)),
+    "any(a,b)": (r"(?:a|b)", str, STR, None),
+    'any(a,"b-c")': (r"(?:a|b-c)", str, STR, None),
+    "uuid": (UUID_RX, uuid.UUID, STR, None),
+    "path": (r"[^/].*", str, PATH, None),
 }
 
 SAFE = "!$&'()*+,/:;=@"  # https://url.spec.whatwg.org/#url-path-segment-string
@@ -66,10 +80,17 @@ def var(conv, name="x", pre="", post=""):
     return ("var", pre, conv, name, post)
 
 
+WRAPPERS = ("submount", "endpointprefix", "subdomain", "template")
+
+
 def spec(segs, trail=False, methods=None, endpoint=None, strict=None, merge=None,
-         defaults=None, alias=False, websocket=False, subdomain=None):
-    """A rule as plain data (JSON-able)."""
+         defaults=None, alias=False, websocket=False, subdomain=None, wrap=()):
+    """A rule as plain data (JSON-able).  wrap = rule factories the rule is declared inside, outermost first:
+    "submount" = Submount("/pre", [...]) (one more leading literal segment "pre"), "endpointprefix" =
+    EndpointPrefix("p.", [...]), "subdomain" = Subdomain(<the rule's subdomain or "">, [...]), "template" =
+    RuleTemplate([...])().  Declaratively a factory changes exactly what its name says and nothing else."""
     return {
+        "wrap": tuple(wrap),
         "segs": tuple(tuple(s) for s in segs), "trail": bool(trail),
         "methods": None if methods is None else tuple(methods),
         "endpoint": endpoint, "strict": strict, "merge": merge,
@@ -81,7 +102,8 @@ def spec(segs, trail=False, methods=None, endpoint=None, strict=None, merge=None
 def norm_spec(d):
     """Normalise a spec that went through JSON (lists/tuples mixed up)."""
     return spec(d["segs"], d["trail"], d["methods"], d["endpoint"], d.get("strict"), d.get("merge"),
-                d.get("defaults"), d.get("alias", False), d.get("websocket", False), d.get("subdomain"))
+                d.get("defaults"), d.get("alias", False), d.get("websocket", False), d.get("subdomain"),
+                d.get("wrap") or ())
 
 
 def rule_string(sp) -> str:
@@ -114,7 +136,30 @@ def rule_kwargs(sp) -> dict:
         kw["websocket"] = True
     if sp["subdomain"] is not None:
         kw["subdomain"] = sp["subdomain"]
+    if sp.get("host") is not None:
+        kw["host"] = sp["host"]
     return kw
+
+
+def to_werkzeug(sp, W):
+    """The werkzeug object for a spec; W = the werkzeug.routing module."""
+    f = W.Rule(rule_string(sp), **rule_kwargs(sp))
+    for w in reversed(sp.get("wrap") or ()):
+        if w == "submount":
+            f = W.Submount("/pre/", [f])          # documented: the prefix's own trailing slash does not count
+        elif w == "endpointprefix":
+            f = W.EndpointPrefix("p.", [f])
+        elif w == "subdomain":
+            f = W.Subdomain(sp["subdomain"] or "", [f])
+        elif w == "template":
+            f = W.RuleTemplate([f])()
+        else:
+            raise ValueError(w)
+    return f
+
+
+def full_rule_string(sp) -> str:
+    return "/pre" * list(sp.get("wrap") or ()).count("submount") + rule_string(sp)
 
 
 def effective_methods(methods):
@@ -147,16 +192,17 @@ class RefRule:
     def __init__(self, sp, idx, map_strict, map_merge):
         self.sp = sp
         self.idx = idx
-        self.segs = sp["segs"]
+        wrap = sp.get("wrap") or ()
+        self.segs = (("lit", "pre"),) * list(wrap).count("submount") + tuple(sp["segs"])
         self.trail = sp["trail"] or not sp["segs"]
         self.strict = map_strict if sp["strict"] is None else sp["strict"]
         self.merge = map_merge if sp["merge"] is None else sp["merge"]
         self.methods = effective_methods(sp["methods"])
-        self.endpoint = sp["endpoint"]
+        self.endpoint = "p." * list(wrap).count("endpointprefix") + str(sp["endpoint"]) if wrap else sp["endpoint"]
         self.defaults = dict(sp["defaults"]) if sp["defaults"] else None
         self.alias = sp["alias"]
         self.websocket = sp["websocket"]
-        self.string = rule_string(sp)
+        self.string = full_rule_string(sp) + ("" if not wrap else " in " + "(".join(wrap))
         rx = ""
         self.vars = []
         self.has_path = False
@@ -174,8 +220,8 @@ class RefRule:
                     if i != len(self.segs) - 1 or pre or post:
                         raise ValueError("path converter only as a whole last segment")
                     self.has_path = True
-                if fixed:
-                    self.fixed = True
+                if fixed is not None:
+                    self.fixed = True          # has a value validation beyond the character pattern
                 rx += re.escape(pre) + f"(?P<{name}>{vrx})" + re.escape(post)
                 self.vars.append((name, py, cls, fixed))
                 cmp.append(("var", pre, conv, post))     # the variable's *name* does not matter
@@ -193,11 +239,12 @@ class RefRule:
         definite = True
         for name, py, cls, fixed in self.vars:
             raw = m.group(name)
-            if fixed and len(raw) != fixed and not lenient_fixed:
+            val = py(raw)
+            if fixed is not None and not lenient_fixed and not fixed(raw, val):
                 return None
             if cls == PATH and self.trail and raw.endswith("/"):
                 definite = False
-            args[name] = py(raw)
+            args[name] = val
         if self.defaults:
             args.update(self.defaults)
         return args, definite
@@ -249,11 +296,11 @@ class Adm:
 class Expect:
     """What the statement allows for one (path, method)."""
     __slots__ = ("ok_match", "ok_redirect", "allow_404", "allow_405", "lo405", "hi405", "adms",
-                 "mine", "other", "decided", "ref", "p", "method", "long_run", "lenient")
+                 "mine", "other", "decided", "ref", "p", "method", "long_run", "lenient", "wsm", "allow_wsm")
 
     def describe(self):
         return {"match": sorted(map(repr, self.ok_match)), "redirect": sorted(self.ok_redirect),
-                "404": self.allow_404, "405": self.allow_405,
+                "404": self.allow_404, "405": self.allow_405, "WebsocketMismatch": self.allow_wsm,
                 "405_methods_required": sorted(self.lo405), "405_methods_allowed": sorted(self.hi405),
                 "admissions": [repr(a) for a in self.adms]}
 
@@ -313,10 +360,18 @@ class RefMap:
         return out
 
     # ------------------------------------------------------------------ expectation
-    def expect(self, p: str, method: str, lenient_fixed: bool = False) -> Expect:
+    def expect(self, p: str, method: str, lenient_fixed: bool = False, websocket=None) -> Expect:
+        """websocket: None = rules and request are all plain HTTP (the flag is ignored); True / False = the
+        request is / is not a WebSocket request and only rules with the same ``websocket`` flag are eligible
+        (Rule docs: "If True, this rule is only matches for WebSocket requests")."""
         adms = self.admissions(p, lenient_fixed)
-        mine = [a for a in adms if a.rule.method_ok(method)]
-        other = [a for a in adms if not a.rule.method_ok(method)]
+        if websocket is None:
+            elig, wsm = adms, []
+        else:
+            elig = [a for a in adms if a.rule.websocket == websocket]
+            wsm = [a for a in adms if a.rule.websocket != websocket]
+        mine = [a for a in elig if a.rule.method_ok(method)]
+        other = [a for a in elig if not a.rule.method_ok(method)]
         direct_def = [a for a in mine if a.definite and a.kind != "M"]
         match_def = [a for a in direct_def if a.kind in "XL"]
         ex = Expect()
@@ -340,24 +395,38 @@ class RefMap:
         # admissions, and leaf rules that are not strict about slashes asked with the trailing slash.  (A
         # non-strict *branch* rule asked without its slash is left open: DESIGN C03 MAY-region.)
         other_def = [a for a in other if a.definite and (a.kind == "X" or (a.kind == "L" and not a.rule.trail))]
-        ex.allow_404 = not must and not other_def
-        ex.allow_405 = not direct_def and bool(other)
+        # rules that admit the path for this method but only for the other kind of request (WebSocket vs HTTP):
+        # documented outcome WebsocketMismatch; where the admission needs a slash redirect / merging / laxness of
+        # a branch rule the statement is silent (observed: 404), and a mismatching rule for another method may
+        # also show up in a 405 list (the method is looked at first)
+        wsm_mine = [a for a in wsm if a.rule.method_ok(method)]
+        wsm_def = [a for a in wsm_mine if a.definite and (a.kind == "X" or (a.kind == "L" and not a.rule.trail))]
+        ex.wsm = wsm
+        ex.allow_wsm = not direct_def and bool(wsm_mine)
+        ex.allow_404 = not must and not other_def and not wsm_def
+        ex.allow_405 = not direct_def and (bool(other) or any(not a.rule.method_ok(method) for a in wsm))
         lo, hi = set(), set()
         for a in other:
             hi |= a.rule.methods
+        for a in wsm:
+            if not a.rule.method_ok(method):
+                hi |= a.rule.methods
         for a in other_def:
             lo |= a.rule.methods
+        if wsm_def:
+            lo = set() if not other_def else lo     # WebsocketMismatch is as good an answer as 405 there
         ex.lo405, ex.hi405 = frozenset(lo), frozenset(hi)
         # does the documented order single out one result? (then it must not depend on insertion order)
-        ex.decided = (len(ex.ok_match) + len(ex.ok_redirect) + int(ex.allow_404) + int(ex.allow_405) == 1
+        ex.decided = (len(ex.ok_match) + len(ex.ok_redirect) + int(ex.allow_404) + int(ex.allow_405)
+                      + int(ex.allow_wsm) == 1
                       and not (ex.allow_405 and lo != hi) and not ex.long_run)
         return ex
 
-    def acceptable_results(self, p: str, method: str):
+    def acceptable_results(self, p: str, method: str, websocket=None):
         """(endpoint, frozen args) of every non-dominated admission of any kind - what following the
         router's redirects from p may end in (C12)."""
         adms = self.admissions(p)
-        mine = [a for a in adms if a.rule.method_ok(method)]
+        mine = [a for a in adms if a.rule.method_ok(method) and (websocket is None or a.rule.websocket == websocket)]
         direct_def = [a for a in mine if a.definite and a.kind != "M"]
         return {a.key for a in mine if not any(better(d.rule, a.rule) is True for d in direct_def)}
 
@@ -408,7 +477,13 @@ def judge(ex: Expect, outcome, url_prefix: str = "http://h"):
             return None
         if any(a.definite for a in ex.mine):
             return "404-but-admitted"
-        return "404-should-405"
+        if any(a.definite and not a.rule.method_ok(ex.method) for a in ex.other):
+            return "404-should-405"
+        return "404-should-be-websocket-mismatch"
+    if k == "wsmismatch":
+        if ex.allow_wsm:
+            return None
+        return "websocket-mismatch-but-admitted" if ex.mine else "websocket-mismatch-unjustified"
     return "unexpected-" + str(outcome[1] if len(outcome) > 1 else k)
 
 
@@ -424,8 +499,14 @@ WITNESS = {
     "string(minlength=2)": ["x", "xy"],
     "int": ["1", "12"],
     "int(fixed_digits=2)": ["1", "12", "123"],
+    "int(fixed_digits=3)": ["12", "123", "1234"],
+    "int(signed=True)": ["1", "-1", "-", "+1"],
+    "int(min=2,max=9)": ["1", "2", "5", "9", "10"],
+    "string(maxlength=2)": ["x", "xy", "xyz"],
     "float": ["1.5", "1"],
+    "float(min=1.0,max=9.5)": ["0.5", "1.0", "9.5", "9.75"],
     "any(a,b)": ["a", "b", "c"],
+    'any(a,"b-c")': ["a", "b-c", "b"],
     "uuid": [UU, UU[:-1]],
     "path": ["x"],
 }
@@ -444,7 +525,7 @@ def seg_tokens(s, extra=None):
     return out
 
 
-def path_set(specs, extra=None):
+def path_set(specs, extra=None, lean=False):
     """Closed path set generated from the map's own segments (extra: conv class -> more witness tokens)."""
     rules = [RefRule(sp, i, True, True) for i, sp in enumerate(specs)]
     lmax = max([len(r.segs) + (1 if r.has_path else 0) for r in rules] + [1])
@@ -463,9 +544,34 @@ def path_set(specs, extra=None):
                 seen.add(t)
                 uniq.append(t)
         pos.append(uniq)
+    # per-rule segment patterns, to keep paths of >= 3 segments only below a prefix that some rule of that depth
+    # (or a path converter) can still follow - everything else of that length is the same miss over and over
+    seg_rx = []
+    for r in rules:
+        rx = []
+        for sg in r.segs:
+            if sg[0] == "lit":
+                rx.append(re.compile(re.escape(sg[1]) + r"\Z"))
+            else:
+                rx.append(re.compile(re.escape(sg[1]) + ("[^/]+" if CONVS[sg[2]][2] != PATH else ".+") + re.escape(sg[4]) + r"\Z", re.S))
+        seg_rx.append(rx)
+
+    def follows(t):
+        """can some rule with more positions than len(t) still follow after the tokens t?"""
+        for r, rx in zip(rules, seg_rx):
+            depth = len(r.segs) + (1 if r.has_path else 0)
+            if depth <= len(t):
+                continue
+            m = min(len(t), len(rx) - (1 if r.has_path else 0))
+            if all(rx[i].match(t[i]) for i in range(m)):
+                return True
+        return False
+
     bases = []
     for n in range(1, lmax + 1):
         for t in itertools.product(*pos[:n]):
+            if n >= 3 and not follows(t[:-1]):
+                continue
             bases.append("/" + "/".join(t))
     bases.append("/" + "/".join([p[0] for p in pos] + [MISS]))      # one path that is too long
     out = ["/", "//", "///"]
@@ -485,8 +591,15 @@ def path_set(specs, extra=None):
         add(b + "//")
         add(b + "///")
         add("/" + b)
-        add("/" + b + "/")
         segs = b.split("/")[1:]
+        if lean:                       # C12: slash forms only, fewer of them
+            for cut in range(1, len(segs)):
+                head, tail = "/" + "/".join(segs[:cut]), "/".join(segs[cut:])
+                add(head + "//" + tail)
+                if cut == 1:
+                    add(head + "///" + tail + "/")
+            continue
+        add("/" + b + "/")
         # a line feed at the end of a segment: "$" and "\\Z" differ exactly there, "." stops matching there
         for j in range(len(segs)):
             add("/" + "/".join(segs[:j] + [segs[j] + "\n"] + segs[j + 1:]))
